@@ -161,7 +161,7 @@ def manufactured(rep, rng, n):
     from optyx.solvers.scipy_solver import _compute_initial_point
     tried = conv = 0
     layouts = ["none", "eq", "ineq_active", "ineq_inactive", "bounds_active", "bounds_inactive", "eq_then_ineq", "ineq_then_eq", "two_ineq",
-               "bound_exactly_zero", "upper_only_active", "one_upper_active", "lower_only_active"]
+               "bound_exactly_zero", "upper_only_active", "one_upper_active", "lower_only_active", "param_ineq_active"]
     edits_hist = {}
     for i in range(n):
         r = random.Random(rng.random())
@@ -225,7 +225,12 @@ def manufactured(rep, rng, n):
             if sense == "<=":
                 return [lambda: f <= c, lambda: c >= f, lambda: c - f >= 0, lambda: Constant(c) - f >= 0, lambda: f - c <= 0][k]()
             return [lambda: f >= c, lambda: c <= f, lambda: c - f <= 0, lambda: Constant(c) - f <= 0, lambda: f - c >= 0][k]()
+        from optyx import Parameter as _Par
+        pq = _Par(f"pq{i}", 1.0)          # a coefficient the user updates between solves; the reference reads it at call time
         piece = {
+            "param_ineq": (lambda: pq * total <= s - 1.0,
+                           lambda o: {"type": "ineq", "fun": lambda x: (s - 1.0) - float(pq.value) * float(np.sum(x)),
+                                      "jac": lambda x: -float(pq.value) * np.ones(len(x))}),
             "eq": (lambda: spell(total, "==", s - 1.0), lambda o: {"type": "eq", "fun": lambda x: float(np.sum(x)) - (s - 1.0), "jac": lambda x: np.ones(len(x))}),
             "ineq_active": (lambda: spell(total, "<=", s - 1.0), lambda o: {"type": "ineq", "fun": lambda x: (s - 1.0) - float(np.sum(x)), "jac": lambda x: -np.ones(len(x))}),
             "ineq_inactive": (lambda: spell(total, "<=", s + 50.0), lambda o: {"type": "ineq", "fun": lambda x: (s + 50.0) - float(np.sum(x)), "jac": lambda x: -np.ones(len(x))}),
@@ -233,7 +238,8 @@ def manufactured(rep, rng, n):
         }
         seq = {"none": [], "eq": ["eq"], "ineq_active": ["ineq_active"], "ineq_inactive": ["ineq_inactive"], "bounds_active": [], "bounds_inactive": [],
                "eq_then_ineq": ["eq", "w_active"], "ineq_then_eq": ["w_active", "eq"], "two_ineq": ["ineq_active", "w_active"],
-               "bound_exactly_zero": [], "upper_only_active": [], "one_upper_active": [], "lower_only_active": []}[cons_kind]
+               "bound_exactly_zero": [], "upper_only_active": [], "one_upper_active": [], "lower_only_active": [],
+               "param_ineq_active": ["param_ineq"]}[cons_kind]
         builders = []
         for nm in seq:
             P.subject_to(piece[nm][0]())
@@ -319,7 +325,8 @@ def manufactured(rep, rng, n):
         compare("first solves", history)
         for step in range(r.randint(1, 2)):
             # (lower cuts would contradict the active upper bounds of the upper-bound layouts: those are edited through bounds only)
-            edit = r.choice(["bound_edit"] if cons_kind in ("upper_only_active", "one_upper_active") else ["list_cut", "scalar_cut", "bound_edit", "bound_edit"])
+            edit = r.choice(["bound_edit"] if cons_kind in ("upper_only_active", "one_upper_active") else
+                            ["param_update"] if cons_kind == "param_ineq_active" else ["list_cut", "scalar_cut", "bound_edit", "bound_edit"])
             edits_hist[edit] = edits_hist.get(edit, 0) + 1
             if edit == "list_cut":
                 cut = [0.3 + 0.1 * k for k in range(nv)]
@@ -327,6 +334,8 @@ def manufactured(rep, rng, n):
                 for k, nm in enumerate(names):
                     builders.append(lambda o, nm=nm, c=float(a[k]) + cut[k]: {"type": "ineq", "fun": lambda x: x[o[nm]] - c,
                                                                             "jac": lambda x: np.eye(len(x))[o[nm]]})
+            elif edit == "param_update":
+                pq.set([1.5, 0.75, 2.0][step % 3])          # the same Problem, the same callables: the new coefficient must be used
             elif edit == "scalar_cut":
                 P.subject_to(vs[0] >= float(a[0]) + 0.7)
                 builders.append(lambda o, nm=names[0], c=float(a[0]) + 0.7: {"type": "ineq", "fun": lambda x: x[o[nm]] - c,
@@ -345,6 +354,47 @@ def manufactured(rep, rng, n):
     return tried, conv
 
 
+def deep_family(rep, rng):
+    """A weighted least-squares fit written as a LOOP of 450 terms (the explicit-stack compiler builds its callable), against
+    the closed-form optimum: group-wise weighted means, clipped to the box."""
+    from optyx import Variable, Problem
+    from optyx.solution import SolverStatus
+    r = random.Random(rng.random())
+    lv = [Variable(nm, lb=-5.0, ub=5.0) for nm in ("g_a", "g_b", "g_c")]
+    ys = [round(r.uniform(-2, 2), 3) for _ in range(450)]
+    ws = [r.choice([0.5, 1.0, 2.0]) for _ in range(450)]
+    obj = None
+    for k in range(450):
+        t = ws[k] * (lv[k % 3] - ys[k]) ** 2 if k % 2 else (ys[k] - lv[k % 3]) ** 2 * ws[k] / 1.0
+        obj = t if obj is None else obj + t
+    star = []
+    for gi in range(3):
+        wsum = sum(ws[k] for k in range(gi, 450, 3)); wy = sum(ws[k] * ys[k] for k in range(gi, 450, 3))
+        star.append(wy / wsum)
+    fstar = sum(ws[k] * (star[k % 3] - ys[k]) ** 2 for k in range(450))
+    out = 0
+    for mx in (False, True):
+        for meth in ("auto", "SLSQP", "L-BFGS-B", "trust-constr"):
+            P = Problem()
+            (P.maximize(-obj) if mx else P.minimize(obj))
+            with warnings.catch_warnings():
+                warnings.simplefilter("ignore")
+                try:
+                    sol = P.solve(method=meth)
+                except Exception as ex:
+                    rep.violation({"kind": "exception", "obligation": "a 450-term accumulated objective solves", "witness": {"method": meth, "error": repr(ex)[:300]}},
+                                  concrete=True)
+                    continue
+            out += 1
+            got = None if not sol.values else sum(ws[k] * (sol.values[lv[k % 3].name] - ys[k]) ** 2 for k in range(450))
+            if sol.status != SolverStatus.OPTIMAL or got is None or got - fstar > 1e-4 * (1 + abs(fstar)):
+                rep.violation({"kind": "differential", "obligation": "direct optimum of a deep (loop-built) least-squares objective is found and reported OPTIMAL",
+                               "witness": {"terms": 450, "method": meth, "maximize_negation": mx, "optyx_status": sol.status.value, "optyx_values": sol.values,
+                                           "objective_at_optyx_point": got, "optimum": fstar, "optimal_point": star, "message": str(sol.message)[:200]}},
+                              concrete=True)
+    return out
+
+
 def run(rep: vk.Report):
     vk.proof_stage(rep, "C09", extra_trusted=["Interval library enclosure (SemI.evalI_correct) for the numeric channel",
                                               "SciPy's convergence and iterate sequence are NOT modelled (partial)"])
@@ -360,7 +410,9 @@ def run(rep: vk.Report):
         rep.violation({"kind": "correspondence", "obligation": "x0 / bounds / jac / hess arguments = model", "case": args[i][:2000],
                        "witness": ameta[i]}, concrete=True)
     tried, conv = manufactured(rep, rng, 28 if rep.tier == "quick" else 700)
+    deep_solved = deep_family(rep, rng)
     cov = rep.coverage
+    cov["deep_loop_built_objective_solves"] = deep_solved
     cov["evaluations"] = len(nums) + len(args) + tried
     cov["distinct_nontrivial"] = len(set(nums)) + len(set(args))
     cov["rule"] = ("generated smooth problems over scalar and vector variables with random bounds, 9 methods, both orientations: the "
